@@ -4,3 +4,4 @@ pub mod h1;
 pub mod ws;
 pub mod multipart;
 pub mod router;
+pub mod files;
